@@ -21,7 +21,7 @@ EvArgs(e) == SubSeq(e, 3, Len(e))
 NoPos(e)  == SubSeq(e, 2, Len(e))
 
 IsEv(e) == Len(e) >= 2
-Abnormal(e) == EvKind(e) \in {8, 11, 12}
+Abnormal(e) == EvKind(e) \in {8, 11, 12, 15}   \* panic, wrong finalize error, runaway loop, hang (watchdog)
 AnyAbnormal(evs) == \E i \in 1..Len(evs) : ~IsEv(evs[i]) \/ Abnormal(evs[i])
 
 \* strip trailing "none" (kind 10) entries; n = how many were stripped
